@@ -321,6 +321,15 @@ impl<'a> Gen<'a> {
 
     /// write the request, execute it, write the reply; returns the outcome (result without traces)
     fn emit(&mut self, req: Req) -> std::io::Result<String> {
+        // resuming a soft-limited call runs eviction scans: they depend on the iteration order
+        if let Req::Poll(h) = &req {
+            if self.kind != Kind::Lru && self.harness.pending_has_script(*h) {
+                let keys = self.harness.real_keys();
+                if !keys.is_empty() {
+                    self.emit(Req::Reorder(keys))?;
+                }
+            }
+        }
         // information needed for the statistics that is gone after the execution
         let cancel_state = if let Req::Cancel(h) = &req {
             let key = self.harness.pending_key(*h);
@@ -438,7 +447,7 @@ impl<'a> Gen<'a> {
         Ok(())
     }
 
-    fn gen_round(&mut self, c: &Cfg, allow_stash: bool) -> Round {
+    fn gen_round(&mut self, c: &Cfg, allow_stash: bool, is_async: bool) -> Round {
         let nacts = self.rng.below(4);
         let mut acts = Vec::new();
         for _ in 0..nacts {
@@ -468,6 +477,12 @@ impl<'a> Gen<'a> {
                     Fin::Panic
                 }
             }
+        };
+        // an async callback whose future is pending at its first poll (the call can then be polled on or abandoned)
+        let fin = match fin {
+            Fin::Ok if is_async && self.rng.pct(25) => Fin::PendOk,
+            Fin::Err if is_async && self.rng.pct(25) => Fin::PendErr,
+            f => f,
         };
         Round { acts, recount, fin }
     }
@@ -516,7 +531,8 @@ impl<'a> Gen<'a> {
             // a blocking lock whose callback keeps the guard of the key itself would never return
             let allow_stash = !(var.is_blocking() && self.evictable(k));
             let nrounds = self.rng.below(4);
-            let script: Vec<Round> = (0..nrounds).map(|_| self.gen_round(c, allow_stash)).collect();
+            let is_async = matches!(var, Variant::A | Variant::Ao | Variant::Ta | Variant::Tao);
+            let script: Vec<Round> = (0..nrounds).map(|_| self.gen_round(c, allow_stash, is_async)).collect();
             self.emit_reorder()?;
             (self.fresh_block(), Limit::Soft(n, script))
         } else {
@@ -575,6 +591,18 @@ impl<'a> Gen<'a> {
         let nstreams = h.stream_ids().len();
         let nguards = h.guard_ids().len() as u64;
         let droppable = self.droppable_streams();
+        // a lock call suspended in its eviction callback: make it likely that it is polled on or abandoned soon
+        let suspended: Vec<u64> = h.pending_ids().into_iter().filter(|p| h.pending_has_script(*p)).collect();
+        if !suspended.is_empty() && self.rng.pct(35) {
+            let p = self.rng.pick(&suspended);
+            if self.rng.pct(65) {
+                self.emit(Req::Poll(p))?;
+            } else {
+                self.emit(Req::Cancel(p))?;
+            }
+            return Ok(());
+        }
+        let h = &self.harness;
         let avail = |a: Action| -> bool {
             match a {
                 Action::Lock | Action::Count | Action::Keys | Action::Adv => true,
